@@ -822,6 +822,10 @@ pub fn reentrant_reads<F: Flavour>() -> Vec<(&'static str, String)> {
             HITS.with(|h| h.borrow_mut().clear());
             verif_hooks::install(Some(Rc::new(|p: &dyn LockProbe, mode: Mode| {
                 // nobody else exists: any holder is this thread
+                if p.would_block(mode) {
+                    HITS.with(|h| h.borrow_mut().push("SELF-DEADLOCK: the lock is requested while this thread holds a conflicting guard of it".into()));
+                    panic!("{}", crate::hook::SELF_DEADLOCK);
+                }
                 if mode == Mode::Read && p.would_block(Mode::Write) {
                     HITS.with(|h| h.borrow_mut().push("read lock requested while this thread already holds a guard of the same lock".into()));
                 }
@@ -896,9 +900,6 @@ pub fn run(ctx: &mut Ctx) {
     for init in inits() {
         for (i, a) in shapes.iter().enumerate() {
             for b in shapes.iter().skip(i) {
-                if tier == Tier::Quick && !share_node(a, b) {
-                    continue;
-                }
                 let sc = Scenario { n: 3, init: init.clone(), threads: vec![vec![with_value(*a, 10)], vec![with_value(*b, 20)]] };
                 if seen.insert(scenario_key(&sc)) {
                     scenarios.push(sc);
@@ -1097,6 +1098,17 @@ pub fn run(ctx: &mut Ctx) {
         }
         // focused confirmation of every re-entrant read site: that accessor alone against each writer loop
         for (name, what) in &re {
+            if what.starts_with("SELF-DEADLOCK") {
+                ctx.stats.report(Finding {
+                    property: "C17".into(),
+                    flavour: fl.into(),
+                    clause: "single-thread.self-deadlock".into(),
+                    signature: format!("{} | {} (one thread) | single-thread.self-deadlock", fl, name),
+                    case: json!({"kind": "lock-discipline", "flavour": fl, "call": name}),
+                    detail: format!("`{}` requests a node lock while the same thread still holds a conflicting guard of it: the call never returns", name),
+                });
+                continue;
+            }
             if accessors::<SDi>().iter().all(|a| a.0 != *name) {
                 continue;
             }
